@@ -238,6 +238,27 @@ def _effects(body):
     for f in ("local_description", "remote_description"):
         for bi, si, s, val in core.lock_write_sites(body, f, methods=("::lock",)):
             out.append((bi, "store:%s" % f))
+    # ... and through a method handed `&mut *guard` (Option::take / replace / insert, mem::take ...): a destructive
+    # read of the slot is a store as far as a later error return is concerned
+    for bi, t, p in body.calls():
+        if not p or p.endswith("::deref_mut") or p.endswith("::deref") or p.endswith("::lock"):
+            continue
+        for a in t["a"]:
+            pl = a.get("p")
+            if a.get("k") not in ("mv", "cp") or not isinstance(pl, dict) or "p" in pl:
+                continue
+            ty = body.locals[pl["l"]]["ty"]
+            if not ty.startswith("&mut "):
+                continue
+            hit = None
+            for y in mir.walk(body.term_operand(a)):
+                if y[0] == "call" and y[1].endswith("::lock") and y[2]:
+                    fp = mir.field_path(y[2][0])
+                    if fp is not None and fp.split(".")[-1] in ("local_description", "remote_description"):
+                        hit = fp.split(".")[-1]
+            if hit:
+                out.append((bi, "mutate:%s(%s)" % (hit, p.split("::")[-1])))
+                break
     for bi, t, p in core.calls_to(body, suffix(*SETTERS)):
         out.append((bi, "call:%s" % p.split("::")[-1]))
     for bi, t, args in core.atomic_sites(body, "next_mid", "fetch_max") + core.atomic_sites(body, "next_mid", "store") + core.atomic_sites(body, "next_mid", "fetch_add"):
